@@ -427,6 +427,11 @@ class Base:
             return struct.pack("d", arg)
         if isinstance(arg, tuple):
             return b"".join(b"<" + Base._arg_serialize(a) + b">" for a in arg)
+        if isinstance(arg, claripy.annotation.Annotation) and getattr(arg, "__dict__", None):
+            # hash annotations by their contents: Python's hash() collides for many distinct values (hash(-1) ==
+            # hash(-2), hash(2**61 - 1) == hash(0), ...) and two annotations that differ only in such fields must not
+            # be hash-consed into one node
+            return type(arg).__qualname__.encode() + Base._arg_serialize(tuple(sorted(arg.__dict__.items())))
         if hasattr(arg, "__hash__"):
             return hash(arg).to_bytes(8, "little", signed=True)
 
